@@ -813,8 +813,17 @@ int xmpp_connect_raw(xmpp_conn_t *conn,
                      xmpp_conn_handler callback,
                      void *userdata)
 {
+    int rc;
+
+    /* a refused call must not turn a live connection into a raw one */
+    if (conn->state != XMPP_STATE_DISCONNECTED)
+        return XMPP_EINVOP;
+
     conn->is_raw = 1;
-    return xmpp_connect_client(conn, altdomain, altport, callback, userdata);
+    rc = xmpp_connect_client(conn, altdomain, altport, callback, userdata);
+    if (rc != XMPP_EOK)
+        conn->is_raw = 0;
+    return rc;
 }
 
 /* Called when tcp connection is established. */
@@ -932,6 +941,8 @@ void conn_disconnect(xmpp_conn_t *conn)
     strophe_debug(conn->ctx, "xmpp", "Closing socket.");
     conn->state = XMPP_STATE_DISCONNECTED;
     conn->stream_negotiation_completed = 0;
+    /* raw mode belongs to the attempt started by xmpp_connect_raw() */
+    conn->is_raw = 0;
     if (conn->tls) {
         tls_stop(conn->tls);
         tls_free(conn->tls);
